@@ -54,6 +54,10 @@ F: Dict[str, Dict[str, Any]] = {
     'odd-names':     {'pk/a.py': 'class Ünï:\n    def mé(self): "L{Ünï}"\nclass Y(Ünï): pass\n'},
     'two-roots':     {'__files__': {'other/__init__.py': '"""Other root."""\nfrom pk.a import A\nclass OA(A):\n    def meth(self): "L{pk.a.A}"\n', 'other/m.py': 'def om(): "L{other}"\n'},
                       '__roots__': ['other']},
+    'mod-sections':  {'__files__': {'pk/secmod.py': '"""\nIntro.\n\nUsage\n=====\n\nText.\n\nDetails\n-------\n\nMore.\n"""\nclass SecK:\n    """K doc."""\n    class SecIn:\n        "in"\ndef secf(): "L{SecK}"\n'}},
+    'pkg-sections':  {'__files__': {'pk/secpkg/__init__.py': '"""\nIntro.\n\nOverview\n========\n\nText.\n\nNotes\n=====\n\nMore.\n"""\nclass PkK:\n    "k"\n', 'pk/secpkg/child.py': '"""Child."""\nclass ChK:\n    "c"\n',
+                                    'pk/secpkg/inner/__init__.py': '"""Inner.\n\nInnerTitle\n==========\n\nText.\n"""\n', 'pk/secpkg/inner/leaf.py': '"leaf"\n'}},
+    'class-sections': {'pk/a.py': 'class SecC:\n    """\n    Intro.\n\n    Howto\n    =====\n\n    Text.\n    """\n    class SecN:\n        """\n        N.\n\n        NTitle\n        ======\n\n        Text.\n        """\n        def nm(self): "nm"\n    def cm(self): "cm"\n'},
     'many-mods':     {'__files__': {f'pk/many/m{i:02d}.py': f'"""m{i}."""\n' for i in range(52)} | {'pk/many/__init__.py': '"""Many."""\n'}},
 }
 NAMES = list(F)
